@@ -103,3 +103,6 @@ def run(ctx) -> None:
     # Q: the regex is searched in the stream of this operation's own listing (nothing carried over from an earlier operation)
     from ._matchrules import stream_per_run
     stream_per_run(ctx, "C01.Q.searched-stream-is-this-operations")
+    # Q3: and the verdict / hit list returned is built from this operation's scan only
+    from ._matchrules import repeated_operation
+    repeated_operation(ctx, "C01.Q.verdict-of-this-operations-scan")
